@@ -98,8 +98,12 @@ class MultivariateNormal(DistributionModel):
         return self.loc.shape[:-1]
 
     def _sample_shape(self) -> torch.Size:
-        offset = 1 if len(self.batch_shape) == 0 else len(self.batch_shape)
-        return self.x.tensor.shape[:-offset]
+        # x [...,N], loc [...,N], matrix [...,N,N]
+        return torch.broadcast_shapes(
+            self.x.tensor.shape[:-1],
+            self.loc.tensor.shape[:-1],
+            self.parameter.tensor.shape[:-2],
+        )
 
     @classmethod
     def from_json(cls, data, dic):
